@@ -1,0 +1,18 @@
+// Copyright JAMF Software, LLC
+
+//go:build verif
+
+package kv
+
+import dbsm "github.com/lni/dragonboat/v4/statemachine"
+
+// VerifUpdateHook, when set by the verification harness, is called at the beginning of every
+// LFSM.Update with the shard, the replica and the entries about to be applied. It may block: that is
+// how the harness makes the metadata replica of one node lag behind the others. Build tag verif only.
+var VerifUpdateHook func(shardID, replicaID uint64, entries []dbsm.Entry)
+
+func verifUpdate(shardID, replicaID uint64, entries []dbsm.Entry) {
+	if h := VerifUpdateHook; h != nil {
+		h(shardID, replicaID, entries)
+	}
+}
